@@ -60,11 +60,15 @@ type cfgShape struct {
 func cfgShapes() []cfgShape {
 	d2 := sec("s2", "d")
 	dz := sec("zz", "d")
+	d0 := scen.Sec{Scheme: "s2", Scopes: []string{}} // a default without scopes is still a default
+	d1 := sec("s1", "a", "b")
 	var out []cfgShape
 	for _, e := range []bool{false, true} {
 		out = append(out, cfgShape{fmt.Sprintf("default=none,enforce=%v", e), nil, e})
 		out = append(out, cfgShape{fmt.Sprintf("default=s2[d],enforce=%v", e), &d2, e})
 		out = append(out, cfgShape{fmt.Sprintf("default=zz[d],enforce=%v", e), &dz, e})
+		out = append(out, cfgShape{fmt.Sprintf("default=s2[],enforce=%v", e), &d0, e})
+		out = append(out, cfgShape{fmt.Sprintf("default=s1[a,b],enforce=%v", e), &d1, e})
 	}
 	return out
 }
@@ -362,7 +366,7 @@ func Main(tier, replay string) {
 	run.Set("rejected_single_runs", rejected)
 	run.Sample(cases[0])
 	run.Sample(cases[len(cases)/2])
-	run.Bound = fmt.Sprintf("%d method-level x %d controller-level security shapes x hidden on/off (%d scenarios) under %d configurations (default none / declared / undeclared x enforce off/on), both OpenAPI versions + gin routes file", len(methodShapes), len(ctlShapes), len(cases), len(cfgShapes()))
+	run.Bound = fmt.Sprintf("%d method-level x %d controller-level security shapes x hidden on/off (%d scenarios) under %d configurations (default none / declared / undeclared / declared without scopes / declared with two scopes x enforce off/on), both OpenAPI versions + gin routes file", len(methodShapes), len(ctlShapes), len(cases), len(cfgShapes()))
 	run.Rule = "state = (scenario, configuration); transition = one run of the real pipeline, spec generators and routes generator over a generated project; validated = comparisons of documented security, SecurityCheckList literals and accept/reject decisions with the effective-security model"
 	run.Assumptions = []string{"an undeclared scheme named only by a hidden route or only at a level that is overridden is not judged", "absent `security` and `security: []` both mean no requirement"}
 	os.RemoveAll(scratch)
